@@ -404,6 +404,10 @@ pub fn run(ctx: &mut Ctx) {
             ctx.eval(&HugeNoise { n: (1u64 << 24) + 3, fill: *fill, end: *end });
         }
     }
+    // ... and one run beyond 2^28 (about a second of push_byte calls)
+    if ctx.mine(7) && (ctx.profile == "rel" || !ctx.quick()) {
+        ctx.eval(&HugeNoise { n: (1u64 << 28) + 5, fill: 0x55, end: 'F' });
+    }
     // adversarial streams and concatenations, every error kind interleaved
     let n = ctx.count(400_000, 20_000_000);
     for i in 0..n {
